@@ -26,7 +26,7 @@ BOUND = ('single-rule routers: every rule of the exhaustive segment universe of 
          'paths: rule-guided (each wildcard filled from a value pool incl. empty text, CR, non-ASCII, signs, leading '
          'zeros, long/tiny/huge numerals, values containing the following literal; then perturbed) and all strings of '
          "length <=3 (thorough <=4) over {a,b,/,1,-,.,e-acute,CR}; every matching path is round-tripped")
-NONTRIVIAL_RULE = ('distinct (rule, flavour, path source); non-trivial = the rule has a wildcard; one case round-trips every '
+NONTRIVIAL_RULE = ('distinct (rule, flavour, path source); non-trivial = the rule has a wildcard and matches at least one generated path; one case round-trips every '
                    'matching path among 100..5000 generated ones')
 
 EXTRA = {
@@ -45,7 +45,17 @@ def exhaustive(tier):
 
 
 def nontrivial(case):
-    return C.rule_has_wildcard(case['rule'])
+    """The rule has a wildcard and at least one of the case's rule-guided paths is matched (so at least one
+    round trip really happens; e.g. `/a<x>b` can never match: the plain wildcard runs to the next '/')."""
+    rule = case['rule']
+    if not C.rule_has_wildcard(rule):
+        return False
+    for src in case['paths']:
+        if src[0] == 'guided':
+            for pth in C.guided_paths(rule, random.Random(src[1]), min(src[2], 60)):
+                if S.match(rule, pth) is not None:
+                    return True
+    return False
 
 
 def gen_cases(tier, seed):
